@@ -1042,7 +1042,7 @@ Definition read_regions (d : vdoc) (ro : list str) : list (str * vregion) := map
 Definition hdr_lines (d : vdoc) (so ro : list str) : list str :=
   [p_webvtt] ++ (match vd_tsmap d with Some m => [tsmap_string m] | None => [] end) ++ [[]] ++
   (match style_list d so with [] => [] | ss => [p_style] ++ ss ++ [[]] end) ++
-  map region_line (region_list d ro) ++ (match vd_regions d with [] => [] | _ => [[]] end).
+  map region_line (region_list d ro) ++ (match ro with [] => [] | _ => [[]] end).
 Definition doc_lines (d : vdoc) (so ro : list str) : list str := hdr_lines d so ro ++ items_lines 0 (vd_items d).
 
 Definition regions_keyed (d : vdoc) (ro : list str) : Prop :=
@@ -1090,15 +1090,13 @@ Lemma write_vtt_lines d so ro : vd_items d <> [] -> regions_keyed d ro ->
 Proof.
   intros Hne Hk. unfold write_vtt. destruct (vd_items d) as [|it0 r0] eqn:Ei; [contradiction|]. rewrite <- Ei.
   f_equal. f_equal. unfold doc_lines, hdr_lines. rewrite !unlines_app.
-  assert (Erid : ssort (map (fun k => match aget k (vd_regions d) with Some rg => rg_id rg | None => k end) ro) = ssort ro).
-  { f_equal. rewrite <- (map_id ro) at 2. apply map_ext_in. intros k Hin. destruct (Hk k Hin) as (rg & E & Eid). rewrite E. exact Eid. }
-  rewrite Erid. fold (style_list d so).
+  fold (style_list d so).
   rewrite (region_bytes_lines d (ssort ro)) by (intros k Hin; apply Hk; apply ssort_in; exact Hin).
   fold (region_list d ro). rewrite vitems_bytes_lines.
   assert (E1 : forall X, p_webvtt ++ (match vd_tsmap d with Some m => [10] ++ tsmap_string m | None => [] end) ++ [10; 10] ++ X =
                          unlines [p_webvtt] ++ unlines (match vd_tsmap d with Some m => [tsmap_string m] | None => [] end) ++ unlines [[]] ++ X).
   { intros X. destruct (vd_tsmap d); unfold unlines; cbn [map concat app]; rewrite <- ?app_assoc; cbn [app]; rewrite ?app_nil_r; reflexivity. }
-  rewrite E1. rewrite <- !app_assoc. f_equal. f_equal. f_equal. f_equal; [|f_equal; f_equal; destruct (vd_regions d); reflexivity].
+  rewrite E1. rewrite <- !app_assoc. f_equal. f_equal. f_equal. f_equal; [|f_equal; f_equal; destruct ro; reflexivity].
   destruct (style_list d so) as [|s0 ss0]; [reflexivity|].
   rewrite !unlines_app. rewrite <- (join_unlines (s0 :: ss0)) by discriminate.
   unfold unlines. cbn [map concat app]. rewrite <- !app_assoc. reflexivity.
@@ -1179,7 +1177,7 @@ Proof.
         destruct (style_list d so) as [|s0 ss0]; [reflexivity|]. rewrite !forallb_app. rewrite Hs. reflexivity.
       + apply forallb_forall. intros x Hx. apply in_map_iff in Hx. destruct Hx as (rg & <- & Hrg). rewrite Forall_forall in Hrok.
         specialize (Hrok rg Hrg). apply region_ok_parts in Hrok. apply line_clean_nobrk. tauto.
-      + destruct (vd_regions d); reflexivity.
+      + destruct ro; reflexivity.
     - pose proof (items_lines_nobrk STY REGS TSM (vd_items d) 0 Hok ltac:(cbn [plus]; exact Hcount)) as E. rewrite EY, forallb_app in E.
       apply andb_true_iff in E. tauto. }
   assert (Edata : removelast (unlines (doc_lines d so ro)) = unlines (hdr_lines d so ro ++ Y)).
@@ -1188,7 +1186,7 @@ Proof.
   unfold read_vtt_lines.
   set (TSL := match vd_tsmap d with Some m => [tsmap_string m] | None => [] end).
   set (STYL := match style_list d so with [] => [] | ss => [p_style] ++ ss ++ [[]] end).
-  set (SEPL := match vd_regions d with [] => @nil str | _ => [[]] end).
+  set (SEPL := match ro with [] => @nil str | _ => [[]] end).
   assert (EH : hdr_lines d so ro ++ Y = p_webvtt :: (TSL ++ [[]] ++ (STYL ++ (map region_line (region_list d ro) ++ (SEPL ++ Y))))).
   { unfold hdr_lines. fold TSL. fold STYL. fold SEPL. rewrite <- !app_assoc. reflexivity. }
   rewrite EH. rewrite vtt_header_webvtt.
@@ -1209,7 +1207,7 @@ Proof.
   rewrite (vtt_run_app_ok _ _ _ _ R3).
   assert (R4 : vtt_run (mkVst [] None 0 BNone [] 0%Z [] STY REGS TSM) SEPL =
                Ok (mkVst [] None 0 BNone [] 0%Z [] STY REGS TSM)).
-  { unfold SEPL. destruct (vd_regions d); [reflexivity|]. cbn [vtt_run]. rewrite blank_clean. reflexivity. }
+  { unfold SEPL. destruct ro; [reflexivity|]. cbn [vtt_run]. rewrite blank_clean. reflexivity. }
   rewrite (vtt_run_app_ok _ _ _ _ R4).
   destruct (items_run STY REGS TSM (vd_items d) 0 [] None 0%Z Hne Hok ltac:(cbn [plus]; exact Hcount)) as (D' & C' & E1 & E2).
   rewrite EY, removelast_last in E1. rewrite E1.
